@@ -1,22 +1,7 @@
 import OrsoVerif.Lemmas.IsoDigits
+import OrsoVerif.Model.Iso
 /-! Helper lemmas for C08: the fixed-offset text path on canonical renderings. -/
 namespace Iso
-
-@[simp] theorem bind_ok {α β : Type} (a : α) (f : α → Except Exc β) : (Except.ok a).bind f = f a := rfl
-@[simp] theorem bind_error {α β : Type} (e : Exc) (f : α → Except Exc β) :
-    (Except.error e : Except Exc α).bind f = .error e := rfl
-
-theorem valid_bounds {dt : DateTime} (h : validDateTime dt = true) :
-    1 ≤ dt.year ∧ dt.year ≤ 9999 ∧ 1 ≤ dt.month ∧ dt.month ≤ 12 ∧ 1 ≤ dt.day ∧
-    dt.day ≤ daysInMonth dt.year dt.month ∧ dt.hour ≤ 23 ∧ dt.minute ≤ 59 ∧ dt.second ≤ 59 ∧
-    dt.micro ≤ 999999 := by
-  simp only [validDateTime, validDate, Bool.and_eq_true, decide_eq_true_eq] at h
-  omega
-
-theorem daysInMonth_le (y m : Nat) : daysInMonth y m ≤ 31 := by
-  unfold daysInMonth daysInMonthL
-  split <;> try omega
-  split <;> omega
 
 theorem buildDatetime_valid (dt : DateTime) (h : validDateTime dt = true) :
     buildDatetime dt.year dt.month dt.day dt.hour dt.minute dt.second = .ok (truncSeconds dt) := by
@@ -304,6 +289,13 @@ theorem plain_offset (h m : Nat) :
   have hc : plainC ':' = true := by decide
   simp [pad2, plainC_digit, hc]
 
+theorem plain_offsetBasic (h m : Nat) :
+    (pad2 h ++ pad2 m).all plainC = true ∧ (pad2 h ++ pad2 m).length = 4 := by
+  simp [pad2, plainC_digit]
+
+theorem plain_pad2 (h : Nat) : (pad2 h).all plainC = true ∧ (pad2 h).length = 2 := by
+  simp [pad2, plainC_digit]
+
 end Iso
 
 namespace Iso
@@ -321,9 +313,19 @@ theorem notDigit_renderDate (y m d : Nat) (t : List Char) : isDigitStr (renderDa
   have : '-'.isDigit = false := by decide
   simp [isDigitStr, renderDate, pad4, pad2, this]
 
-theorem parseIso_text (v : List Char) (hd : isDigitStr v = false) (dt : DateTime)
+/-- **The generated string branch is the skeleton.**  `Gen.IsoText.textBranch` is the program
+written by `harness/pystmt.py` from the statements of `parse_iso`'s string branch on this run and
+is what `parseIso` runs; `textPath` is the hand-written skeleton the lemmas reason about.  Proved in
+`Props/C08.lean` (`text_branch_refines_skeleton`) for every text. -/
+structure Refines : Prop where
+  text : ∀ v : List Char, Gen.IsoText.textBranch v = textPath v
+
+theorem strBody_skel (R : Refines) (s : List Char) : strBody s = strBodySkel s := by
+  unfold strBody strBodySkel; rw [R.text]
+
+theorem parseIso_text (R : Refines) (v : List Char) (hd : isDigitStr v = false) (dt : DateTime)
     (h : textPath v = .ok (some dt)) : parseIso (.str v) = .value dt := by
-  simp [parseIso, parseIsoWith, body, strBody, hd, h]
+  simp [parseIso, parseIsoWith, body, strBody, hd, R.text, h]
 
 theorem textPath_dropped (A : Accepts) (v : List Char) (hp : v.all plainC = true) (h1 : 10 ≤ v.length)
     (h2 : v.length ≤ 26) (suf : Suffix) (hs : suf.dropped = true) :
@@ -337,5 +339,17 @@ theorem textPath_dropped (A : Accepts) (v : List Char) (hp : v.all plainC = true
     rw [e]
     exact textPath_plus A v _ hp (plain_split p3).1 h1 (by omega) (by omega)
   | minus hh mm => cases hs
+  | plusBasic hh mm =>
+    obtain ⟨p3, l3⟩ := plain_offsetBasic hh mm
+    have e : Suffix.text (.plusBasic hh mm) = '+' :: (pad2 hh ++ pad2 mm) := rfl
+    rw [e]
+    exact textPath_plus A v _ hp (plain_split p3).1 h1 (by omega) (by omega)
+  | minusBasic hh mm => cases hs
+  | plusHour hh =>
+    obtain ⟨p3, l3⟩ := plain_pad2 hh
+    have e : Suffix.text (.plusHour hh) = '+' :: pad2 hh := rfl
+    rw [e]
+    exact textPath_plus A v _ hp (plain_split p3).1 h1 (by omega) (by omega)
+  | minusHour hh => cases hs
 
 end Iso
